@@ -116,12 +116,13 @@ theorem so3Interp_unit {x1 y1 z1 w1 x2 y2 z2 w2 : ℝ} (t : ℝ)
     refine ⟨_, _, _, _, rfl, ?_⟩
     have hs := (sin_arcLength_pos h).ne'
     have hn := slerp_num t h
-    simp only [quatDot_eq] at hn
+    simp only [] at hn
     generalize (if quatDot x1 y1 z1 w1 x2 y2 z2 w2 < 0
       then -Real.sin (t * arcLength x1 y1 z1 w1 x2 y2 z2 w2)
       else Real.sin (t * arcLength x1 y1 z1 w1 x2 y2 z2 w2)) = s1 at hn ⊢
     generalize Real.sin ((1 - t) * arcLength x1 y1 z1 w1 x2 y2 z2 w2) = s0 at hn ⊢
     generalize Real.sin (arcLength x1 y1 z1 w1 x2 y2 z2 w2) = S at hn hs ⊢
+    rw [quatDot_eq] at hn
     field_simp
     linear_combination s0 ^ 2 * h1 + s1 ^ 2 * h2 + hn
   · rw [so3Interp_small t h]
